@@ -743,7 +743,7 @@ func c01Cli(c *core.Ctx, dir string, k c01Case) {
 }
 
 func c01Replay(c *core.Ctx, payload json.RawMessage) {
-	if c01AttrReplay(c, payload) || c01NestedReplay(c, payload) || c01InterruptReplay(c, payload) || c01CommitCancelReplay(c, payload) || c01MultiTableReplay(c, payload) {
+	if c01AttrReplay(c, payload) || c01NestedReplay(c, payload) || c01InterruptReplay(c, payload) || c01CommitCancelReplay(c, payload) || c01MultiTableReplay(c, payload) || c01SwapFailReplay(c, payload) {
 		return
 	}
 	var k c01Case
